@@ -1083,10 +1083,22 @@ func (f *fn) assign(s *ast.AssignStmt, rest func() string) string {
 		if r, ok := f.structAssign(s, rest); ok {
 			return r
 		}
-		if sel, ok := s.Lhs[0].(*ast.SelectorExpr); ok && s.Tok == token.ASSIGN { // p.xs = e on a slice field of a struct parameter
-			if _, pp, _, isPath := f.path(sel); isPath && pp != "" && f.typeOf(sel).k == kList {
-				val := f.expr(s.Rhs[0])
-				name, t, _ := f.place(sel)
+		if sel, ok := s.Lhs[0].(*ast.SelectorExpr); ok && s.Tok != token.DEFINE { // p.f = e, p.f op= e on a field of a struct parameter
+			if _, pp, _, isPath := f.path(sel); isPath && pp != "" && leaf(f.typeOf(sel)) {
+				t := f.typeOf(sel)
+				var val string
+				if s.Tok == token.ASSIGN {
+					val = f.expr(s.Rhs[0])
+				} else {
+					ops := map[token.Token]token.Token{token.ADD_ASSIGN: token.ADD, token.SUB_ASSIGN: token.SUB, token.MUL_ASSIGN: token.MUL,
+						token.QUO_ASSIGN: token.QUO, token.REM_ASSIGN: token.REM, token.AND_ASSIGN: token.AND, token.OR_ASSIGN: token.OR}
+					op, known := ops[s.Tok]
+					if !known {
+						f.fail(s, "assignment operator %s on a struct field is outside the fragment", s.Tok)
+					}
+					val = f.arith(s, op, sel, s.Rhs[0], t)
+				}
+				name := f.pathParam(sel, func() int { i, _, _, _ := f.path(sel); return i }(), pp, func() []int { _, _, o, _ := f.path(sel); return o }(), t)
 				return f.rebind(name, t, val, rest)
 			}
 		}
@@ -1329,7 +1341,9 @@ func (f *fn) header(decl *ast.FuncDecl, prev *fn) {
 // the beginning of exactly one statement of the function (source text, blanks normalised); the statements are
 // taken in source order.  Locals they read but do not define become parameters (in order of first use).  The
 // result is the value returned by the last statement if it is a `return`, else the variable it assigns.
-func (u *Unit) Slice(pkgRel, recv, name, leanName string, pats []string) (sig *Sig, err error) {
+// With result != "" (the source text of a variable or field, e.g. "dst.Total") every selected statement is
+// translated as a statement and the function returns that expression's value after them.
+func (u *Unit) Slice(pkgRel, recv, name, leanName string, pats []string, result string) (sig *Sig, err error) {
 	defer func() {
 		if r := recover(); r != nil {
 			if xe, ok := r.(xerr); ok {
@@ -1366,15 +1380,46 @@ func (u *Unit) Slice(pkgRel, recv, name, leanName string, pats []string) (sig *S
 		sel = append(sel, h[0])
 	}
 	sort.Slice(sel, func(i, j int) bool { return sel[i].Pos() < sel[j].Pos() })
-	last := sel[len(sel)-1]
-	switch x := last.(type) { // a selected `if` / `for` stands for its condition
-	case *ast.IfStmt:
-		if x.Init == nil {
-			last = &ast.ReturnStmt{Return: x.Pos(), Results: []ast.Expr{x.Cond}}
+	for i, a := range sel { // a statement inside another selected statement would be translated twice
+		for j, b := range sel {
+			if i != j && a.Pos() <= b.Pos() && b.End() <= a.End() {
+				return nil, xerr{fmt.Sprintf("%s: selected statement %q lies inside selected statement %q", leanName, pats[j], pats[i])}
+			}
 		}
-	case *ast.ForStmt:
-		if x.Init == nil && x.Cond != nil {
-			last = &ast.ReturnStmt{Return: x.Pos(), Results: []ast.Expr{x.Cond}}
+	}
+	last := sel[len(sel)-1]
+	var resExpr ast.Expr
+	if result != "" {
+		for _, st := range sel {
+			ast.Inspect(st, func(n ast.Node) bool {
+				if e, ok := n.(ast.Expr); ok && resExpr == nil {
+					var b strings.Builder
+					printer.Fprint(&b, u.L.Fset, e)
+					if b.String() == result {
+						resExpr = e
+					}
+				}
+				return resExpr == nil
+			})
+		}
+		if resExpr == nil {
+			return nil, xerr{fmt.Sprintf("%s: the result %q does not occur in the selected statements", leanName, result)}
+		}
+	}
+	switch x := last.(type) { // a selected `if` / `for` stands for its condition
+	case ast.Stmt:
+		if resExpr != nil {
+			break
+		}
+		switch x := x.(type) {
+		case *ast.IfStmt:
+			if x.Init == nil {
+				last = &ast.ReturnStmt{Return: x.Pos(), Results: []ast.Expr{x.Cond}}
+			}
+		case *ast.ForStmt:
+			if x.Init == nil && x.Cond != nil {
+				last = &ast.ReturnStmt{Return: x.Pos(), Results: []ast.Expr{x.Cond}}
+			}
 		}
 	}
 	sel[len(sel)-1] = last
@@ -1410,10 +1455,22 @@ func (u *Unit) Slice(pkgRel, recv, name, leanName string, pats []string) (sig *S
 			f.sig.Res, f.sig.Opt = prev.sig.Res, f.opt
 		}
 		body = f.block(sel, func() string {
+			if resExpr != nil {
+				resT = []ty{f.typeOf(resExpr)}
+				v := f.expr(resExpr)
+				return f.takePre() + f.ret([]string{v})
+			}
 			var lhs ast.Expr
 			switch s := last.(type) {
 			case *ast.AssignStmt:
 				lhs = s.Lhs[0]
+				if sel, isSel := lhs.(*ast.SelectorExpr); isSel { // the statement updates a field of a struct parameter
+					if i, pp, ord, isPath := f.path(sel); isPath && pp != "" {
+						t := f.typeOf(sel)
+						resT = []ty{t}
+						return f.ret([]string{f.pathParam(sel, i, pp, ord, t)})
+					}
+				}
 			case *ast.IncDecStmt:
 				lhs = s.X
 			case *ast.RangeStmt, *ast.ForStmt: // a loop: the result is what it writes among the slice's parameters
